@@ -156,7 +156,7 @@ def generate(rng, tier):
             def fill2(s):
                 return [s[0], [next(it) for _ in range(s[1])], [fill2(x) for x in s[2]]]
             yield f"crit (bexpr {sx(fill2(sh))}) {sx(its)} -", "boolexpr-truthtable"
-    nrand = 200 if tier == "quick" else 120000
+    nrand = 1000 if tier == "quick" else 120000
     for _ in range(nrand):
         its = [P(n, *rng.choice(nums if rng.random() < 0.8 else VALUE_POOL)) for n in names]
         pool = [rand_cond(rng) for _ in range(6)]
